@@ -224,6 +224,61 @@ static std::string tweak(Src& s, MV& v) {
   }
 }
 
+// node-versus-scalar comparisons must follow the same value semantics (kind and bits for numbers, bytes for strings)
+template <class N>
+static std::string scalar_compare(const N& n, const MV& m, int& budget) {
+  if (budget <= 0) return "";
+  switch (m.k) {
+    case MV::Uint:
+      budget--;
+      if (!(n == (uint64_t)m.u) || (n != (uint64_t)m.u)) return "uint node != the same uint64_t value";
+      if ((n == (int64_t)m.u) != (m.u <= (uint64_t)INT64_MAX)) return "uint node vs int64_t of the same bits: wrong answer";
+      if (n == (uint64_t)(m.u + 1)) return "uint node == another uint64_t value";
+      if (m.u < (1ull << 52) && (n == (double)m.u)) return "uint node == a double of the same value (kinds must be distinguished)";
+      break;
+    case MV::Sint:
+      budget--;
+      if (!(n == (int64_t)m.u)) return "negative node != the same int64_t value";
+      if (n == (uint64_t)m.u) return "negative node == the uint64_t with the same bits";
+      break;
+    case MV::Real: {
+      budget--;
+      double d = m.dbl();
+      if (d == d && !(n == d)) return "double node != the same double";
+      double other;
+      uint64_t ob = m.u ^ 1;
+      memcpy(&other, &ob, 8);
+      if (other == other && (n == other)) return "double node == a double differing in the last bit";
+      if (d == 0 && (n == -d)) return "0.0 node == -0.0 (or vice versa)";
+      break;
+    }
+    case MV::True: case MV::False:
+      budget--;
+      if (!(n == (m.k == MV::True)) || (n == (m.k != MV::True))) return "bool node compares wrongly with a bool";
+      break;
+    case MV::Str:
+      budget--;
+      if (!(n == sonic_json::StringView(m.s.data(), m.s.size()))) return "string node != a view of the same bytes";
+      if (n == sonic_json::StringView("\x01other\x02")) return "string node == another view";
+      if (!m.s.empty() && (n == sonic_json::StringView(m.s.data(), m.s.size() - 1))) return "string node == a proper prefix of its value";
+      break;
+    case MV::Arr:
+      for (size_t i = 0; i < m.a.size() && budget > 0; i++) {
+        std::string r = scalar_compare(n[i], m.a[i], budget);
+        if (!r.empty()) return r;
+      }
+      break;
+    case MV::Obj:
+      for (size_t i = 0; i < m.o.size() && budget > 0; i++) {
+        std::string r = scalar_compare((n.MemberBegin() + (long)i)->value, m.o[i].second, budget);
+        if (!r.empty()) return r;
+      }
+      break;
+    default: break;
+  }
+  return "";
+}
+
 template <class A, class B>
 static std::string relate(const A& a, const B& b, bool expect_equal, const char* what) {
   bool e1 = a == b, e2 = b == a, n1 = a != b, n2 = b != a;
@@ -287,6 +342,11 @@ static void property(Src& s, Case& c) {
     m = relate(A, B, same, "pair");
     if (!m.empty()) return;
     if (!(A == A) || (A != A)) { m = "== is not reflexive"; return; }
+    if (h1 != H_BUILD_PERMUTED && h1 != H_MAPPED) {  // (member order of A equals the order of v for these histories)
+      int budget = 12;
+      m = scalar_compare(static_cast<const typename std::remove_reference<decltype(A)>::type::NodeType&>(A), v, budget);
+      if (!m.empty()) return;
+    }
     // a deep copy and a parse of the serialised text are equal to the original
     Document cp;
     cp.CopyFrom(A, cp.GetAllocator(), true);
